@@ -165,10 +165,15 @@ class Agg:
         if r.get("div"):
             self.divs.append(r)
         if r["outcome"] == "hang":
+            # no trace event for a long time: threads only spin
             if is_f1(st):
                 self.f1 += 1
             else:
                 self.hang_other.append(r)
+        elif r["outcome"] == "nonterm":
+            # keeps running although every predicate has held on a committed state for a long time (C08)
+            self.hang_other.append(r)
+        # "budget": step budget exhausted while still making progress - inconclusive, only counted in `outcomes`
         if len(self.samples) < 6 and r.get("sample"):
             self.samples.append({"cfg": r["cfg"], "events": r["sample"]})
 
